@@ -83,7 +83,8 @@ impl Check for C02 {
     }
     fn generate(&self, seed: u64, tier: Tier) -> Value {
         let mut rng = Rng::derive(seed, "C02.gen", 0);
-        let cfg = swarm_cfg(&mut rng, tier, true, true);
+        // injected write errors are outside C02's quantifier (operation histories and sizes): see DESIGN.md 8.2
+        let cfg = swarm_cfg(&mut rng, tier, false, true);
         let mut sh = shadow(&cfg);
         let mut hits = 0u64;
         let hi = if rng.chance(0.2) { 120 } else { 40 };
